@@ -104,6 +104,15 @@ FIXED.append(
                   'Sheet1!B3': ['op', '+', ['call', 'MAX', [
                       ['range', 'A1:A2']]], ['ref', 'B1']]},
      'sheets': ['Sheet1'], 'setvals': [50, 0.5]})
+FIXED.append(
+    # a formula over an address the model does not hold (B1 is no cell at
+    # all until the first set_cell_value creates it)
+    {'inputs': {'Sheet1!A1': 2, 'Sheet1!B1': None},
+     'formulas': {'Sheet1!C1': ['op', '+', ['ref', 'A1'], ['ref', 'B1']],
+                  'Sheet1!D1': ['op', '*', ['ref', 'C1'], ['num', '10']],
+                  'Sheet1!E1': ['call', 'SUM', [['ref', 'B1'],
+                                                ['range', 'A1:A2']]]},
+     'sheets': ['Sheet1'], 'setvals': [5, 0.5]})
 for _m in FIXED:
     _m['order'] = list(_m['formulas'])
 PLACEHOLDER = 987654321
@@ -319,7 +328,7 @@ def judge(case):
     names = model.get('names', {})
     try:
         m = compile_named(model) if names else lib.compile_dict(
-            GM.to_dict(model))
+            {a: v for a, v in GM.to_dict(model).items() if v is not None})
         ev = xl.Evaluator(m)
     except Exception as err:  # noqa: BLE001
         t = exc_tag(err)
